@@ -459,22 +459,38 @@ func roundtrip(v9 bool, tier string) mck.Space {
 		}
 		// saved by ANOTHER process (as after a restart): same content, same decoding
 		if self, err := os.Executable(); err == nil {
-			po := filepath.Join(tmpDirGet(), "other.json")
-			os.Remove(po)
-			out, err := exec.Command(self, "-dumpcontent", tier, fmt.Sprint(idx), proto(v9), po).CombinedOutput()
-			if err != nil {
-				fmt.Fprintln(os.Stderr, "child process for the cross-process round trip failed:", err, string(out))
-				os.Exit(3)
-			}
-			lo := e.load(po)
-			co, erro := e.entries(lo)
-			if erro != nil || strings.Join(co, "\n") != strings.Join(a, "\n") {
-				c.Violation(proto(v9)+":roundtrip:other-process:content-differs", fmt.Sprintf("another process saved %d templates, this one loaded %d (%v)", len(a), len(co), erro), what())
-			} else {
-				po2 := e.probeAll(lo, ct)
-				for i := range pa {
-					if pa[i] != po2[i] {
-						c.Violation(proto(v9)+":roundtrip:other-process:decode-differs", fmt.Sprintf("in the saving process: %s ; in the loading process: %s", pa[i], po2[i]), what())
+			// ... nor the same machine shape: the saving process runs with another number of processors
+			// (GOMAXPROCS: a changed -cpu-cap, another host) than the loading one
+			for _, procs := range []string{"", "1", "64", "255"} {
+				po := filepath.Join(tmpDirGet(), "other.json")
+				os.Remove(po)
+				cmd := exec.Command(self, "-dumpcontent", tier, fmt.Sprint(idx), proto(v9), po)
+				where := "another process"
+				if procs != "" {
+					cmd.Env = append(os.Environ(), "GOMAXPROCS="+procs)
+					where = "another process running with GOMAXPROCS=" + procs
+				}
+				out, err := cmd.CombinedOutput()
+				if err != nil {
+					fmt.Fprintln(os.Stderr, "child process for the cross-process round trip failed:", err, string(out))
+					os.Exit(3)
+				}
+				lo := e.load(po)
+				co, erro := e.entries(lo)
+				if erro != nil || strings.Join(co, "\n") != strings.Join(a, "\n") {
+					c.Violation(proto(v9)+":roundtrip:other-process:content-differs", fmt.Sprintf("%s saved %d templates, this one loaded %d (%v)", where, len(a), len(co), erro), what())
+					break
+				} else {
+					po2 := e.probeAll(lo, ct)
+					bad := false
+					for i := range pa {
+						if pa[i] != po2[i] {
+							c.Violation(proto(v9)+":roundtrip:other-process:decode-differs", fmt.Sprintf("in the saving process (%s): %s ; in the loading process: %s", where, pa[i], po2[i]), what())
+							bad = true
+							break
+						}
+					}
+					if bad {
 						break
 					}
 				}
